@@ -24,15 +24,16 @@ from ..flow import Disjunctive, Flow, MustFacts, each, each_exit
 BR = 'dashlive/utils/buffered_reader.py'
 
 
-def lin(e: ast.AST) -> dict[str, int] | None:
-    """linear normal form over names and dotted attributes"""
+def lin(e: ast.AST, opaque: bool = False) -> dict[str, int] | None:
+    """linear normal form over names and dotted attributes; with `opaque`, any other subterm
+    (a product, a remainder, a call) is an atom named by its text"""
     if isinstance(e, ast.Constant) and isinstance(e.value, int) and not isinstance(e.value, bool):
         return {'': e.value} if e.value else {}
     d = dotted(e)
     if d is not None:
         return {d: 1}
     if isinstance(e, ast.BinOp) and isinstance(e.op, (ast.Add, ast.Sub)):
-        a, b = lin(e.left), lin(e.right)
+        a, b = lin(e.left, opaque), lin(e.right, opaque)
         if a is None or b is None:
             return None
         out = dict(a)
@@ -40,10 +41,12 @@ def lin(e: ast.AST) -> dict[str, int] | None:
         for k, v in b.items():
             out[k] = out.get(k, 0) + sg * v
         return {k: v for k, v in out.items() if v}
+    if opaque and not any(isinstance(x, (ast.Await, ast.NamedExpr, ast.Lambda)) for x in ast.walk(e)):
+        return {f'`{norm(e)}`': 1}
     return None
 
 
-EMPTY = ("r''", "b''", "''", '""', 'b""', "bytes()")
+EMPTY = ("r''", "b''", "''", '""', 'b""', "bytes()", "bytearray()", "bytearray(b'')")
 REMAINING = {'self.size': 1, 'self.pos': -1}
 
 
@@ -74,7 +77,7 @@ def r20_1(rep: Report, cls: ast.ClassDef) -> None:
                 if whence is not None and not whence.endswith('SEEK_SET') and whence != '0':
                     rep.fail(rid, construct, key, f'unsupported whence {whence}', n)
                     continue
-                l = lin(subst_locals(fn, n.args[0])) if n.args else None
+                l = lin(subst_locals(fn, n.args[0]), opaque=True) if n.args else None
                 if l is not None and l.get('self.offset') == 1:
                     rep.ok(rid, construct, key)
                 else:
@@ -86,11 +89,11 @@ def r20_1(rep: Report, cls: ast.ClassDef) -> None:
                 key = f'tell in `{short(p, 60)}`'
                 ok = False
                 if isinstance(p, ast.BinOp) and isinstance(p.op, ast.Sub) and p.left is n:
-                    l = lin(subst_locals(fn, p.right))
+                    l = lin(subst_locals(fn, p.right), opaque=True)
                     ok = l is not None and l.get('self.offset') == 1
                 elif isinstance(p, ast.Compare):
                     other = p.comparators[0] if p.left is n else p.left
-                    l = lin(subst_locals(fn, other))
+                    l = lin(subst_locals(fn, other), opaque=True)
                     ok = l is not None and l.get('self.offset') == 1
                 if ok:
                     rep.ok(rid, construct, key)
@@ -139,6 +142,12 @@ def r20_2(rep: Report, cls: ast.ClassDef) -> None:
                 for a in st.value.args:
                     if lin(a) == REMAINING:
                         out.append(('win?', st.targets[0].id))
+            # remaining = self.size - self.pos: the bound itself
+            if isinstance(st, (ast.Assign, ast.AnnAssign)) and getattr(st, 'value', None) is not None:
+                tg = st.targets[0] if isinstance(st, ast.Assign) and len(st.targets) == 1 else getattr(st, 'target', None)
+                if isinstance(tg, ast.Name) and lin(st.value) == REMAINING:
+                    out.append(('win?', tg.id))
+                    out.append(('rem?', tg.id))
             return out
 
         class Dom(MustFacts):
@@ -166,7 +175,7 @@ def r20_2(rep: Report, cls: ast.ClassDef) -> None:
                         s.discard('posorig')
                 for f in gen(st):
                     if 'posorig' in s:
-                        s.add(('win', f[1]))
+                        s.add((f[0].rstrip('?'), f[1]))
                 # a copy of a win value is win
                 if isinstance(st, ast.Assign) and len(st.targets) == 1 \
                         and isinstance(st.targets[0], ast.Name) and isinstance(st.value, ast.Name) \
@@ -180,7 +189,116 @@ def r20_2(rep: Report, cls: ast.ClassDef) -> None:
                     return s | {'sizenone'} if truth else s - {'sizenone'}
                 if t == 'self.size is not None':
                     return s - {'sizenone'} if truth else s | {'sizenone'}
+                # if remaining < n: n = remaining  - on the other branch n <= remaining already
+                if isinstance(test, ast.Compare) and len(test.ops) == 1 and isinstance(test.left, ast.Name) \
+                        and isinstance(test.comparators[0], ast.Name):
+                    a, b, op = test.left.id, test.comparators[0].id, type(test.ops[0])
+                    le = None               # (x, y): x <= y is known on this branch
+                    if op in (ast.Lt, ast.Gt):
+                        le = None if truth else ((b, a) if op is ast.Lt else (a, b))
+                    elif op in (ast.LtE, ast.GtE):
+                        le = ((a, b) if op is ast.LtE else (b, a)) if truth else None
+                    if truth and op is ast.Lt:
+                        le = (a, b)
+                    if truth and op is ast.Gt:
+                        le = (b, a)
+                    if le is not None and (('rem', le[1]) in s or ('win', le[1]) in s):
+                        return s | {('win', le[0])}
                 return s
+
+        def cursor_loop_ok(loop: ast.While, w: ast.AST, chunk_e: ast.AST, cur: str, stop: str, facts) -> tuple[bool, str]:
+            """`while cur < stop:` .. chunk = X[lo:hi] with hi - lo == nxt - cur, nxt = min(stop, ..),
+            `cur = nxt`: the chunk lengths telescope to at most stop - cur0, and stop = cur0 + total with
+            the total clamped to size - pos."""
+            stores = [n for n in ast.walk(loop) if isinstance(n, ast.Name) and isinstance(n.ctx, (ast.Store, ast.Del))]
+            if any(n.id == stop for n in stores):
+                return False, f'`{stop}` is changed inside the chunk loop'
+            env: dict[str, dict] = {}
+            min_of: dict[str, list[dict]] = {}
+            length = None
+            advanced = None
+            for stmt in loop.body:
+                if length is None and any(x is w for x in ast.walk(stmt)):
+                    sl = next((c.slice for c in ast.walk(chunk_e) if isinstance(c, ast.Subscript)
+                               and isinstance(c.slice, ast.Slice)), None)
+                    if sl is None:
+                        return False, f'`{short(w)}` does not write a slice'
+                    if sl.upper is None:
+                        return False, (f'`{short(w)}` writes an open-ended slice of the cached bucket: bytes beyond the '
+                                       'requested count (and beyond the window end) are returned')
+
+                    def ev(e):
+                        if isinstance(e, ast.Name) and e.id in env:
+                            return dict(env[e.id])
+                        if isinstance(e, ast.BinOp) and isinstance(e.op, (ast.Add, ast.Sub)):
+                            x, y = ev(e.left), ev(e.right)
+                            if x is None or y is None:
+                                return None
+                            out = dict(x)
+                            for k_, v_ in y.items():
+                                out[k_] = out.get(k_, 0) + (v_ if isinstance(e.op, ast.Add) else -v_)
+                            return {k_: v_ for k_, v_ in out.items() if v_}
+                        return lin(e, opaque=True)
+                    lo = ev(sl.lower) if sl.lower is not None else {}
+                    up = ev(sl.upper)
+                    if lo is None or up is None:
+                        return False, f'cannot normalise slice bounds of `{short(w)}`'
+                    length = dict(up)
+                    for k_, v_ in lo.items():
+                        length[k_] = length.get(k_, 0) - v_
+                    length = {k_: v_ for k_, v_ in length.items() if v_}
+                    continue
+                if isinstance(stmt, ast.Assign) and len(stmt.targets) == 1 and isinstance(stmt.targets[0], ast.Name):
+                    tg = stmt.targets[0].id
+                    if tg == cur:
+                        if advanced is not None or length is None or not isinstance(stmt.value, ast.Name):
+                            return False, f'`{cur}` is changed by `{norm(stmt)}`'
+                        advanced = stmt.value.id
+                        continue
+                    if isinstance(stmt.value, ast.Call) and call_name(stmt.value) == 'min' and not stmt.value.keywords:
+                        min_of[tg] = [lin(a, opaque=True) for a in stmt.value.args]
+                    else:
+                        min_of.pop(tg, None)
+                    env.pop(tg, None)
+                elif any(isinstance(n, ast.Name) and isinstance(n.ctx, ast.Store) and n.id == cur for n in ast.walk(stmt)):
+                    return False, f'`{cur}` is changed by `{short(stmt)}`'
+            if length is None:
+                return False, f'`{short(w)}` is not on the straight line of the chunk loop'
+            if advanced is None:
+                return False, f'the chunk loop never advances `{cur}`'
+            if length != {advanced: 1, cur: -1}:
+                return False, (f'chunk `{_fmt_lin(length)}` is not `{advanced} - {cur}`: the bytes written do not match '
+                               f'the advance of `{cur}`')
+            if sum(1 for n in stores if n.id == advanced) != 1:
+                return False, f'`{advanced}` is assigned more than once inside the chunk loop'
+            if {stop: 1} not in [f_ for f_ in min_of.get(advanced, []) if f_ is not None]:
+                return False, (f'`{advanced}` is not min({stop}, ..): a chunk can run past what is left of the '
+                               'requested count')
+            inits_c = [n for n in ast.walk(fn) if isinstance(n, ast.Assign) and isinstance(n.targets[0], ast.Name)
+                       and n.targets[0].id == cur and not any(x is n for x in ast.walk(loop))]
+            inits_s = [n for n in ast.walk(fn) if isinstance(n, ast.Assign) and isinstance(n.targets[0], ast.Name)
+                       and n.targets[0].id == stop]
+            if len(inits_c) != 1 or len(inits_s) != 1:
+                return False, f'`{cur}` / `{stop}` are not initialised once before the chunk loop'
+            c0 = lin(inits_c[0].value, opaque=True)
+            s0 = lin(subst_locals(fn, inits_s[0].value) if norm(inits_s[0].value).find(cur) < 0 else inits_s[0].value,
+                     opaque=True)
+            if s0 is not None and cur in s0 and c0 is not None:
+                k = s0.pop(cur)
+                for k_, v_ in c0.items():
+                    s0[k_] = s0.get(k_, 0) + k * v_
+            if c0 is None or s0 is None:
+                return False, f'cannot normalise the start of `{cur}` / `{stop}`'
+            total = dict(s0)
+            for k_, v_ in c0.items():
+                total[k_] = total.get(k_, 0) - v_
+            total = {k_: v_ for k_, v_ in total.items() if v_}
+            if len(total) != 1 or list(total.values()) != [1]:
+                return False, f'`{stop} - {cur}` at loop entry is `{_fmt_lin(total)}`, not one requested count'
+            tname = next(iter(total))
+            if ('win', tname) not in facts and 'sizenone' not in facts:
+                return False, f'total `{tname}` is not clamped to size - pos when the size is known'
+            return True, ''
 
         # which local names hold "assembled" data, and how they were assembled
         def assembled_ok(ret: ast.AST, facts) -> tuple[bool, str]:
@@ -192,6 +310,9 @@ def r20_2(rep: Report, cls: ast.ClassDef) -> None:
             acc = None                  # name of the accumulator object
             adders: list[tuple[ast.AST, ast.AST]] = []     # (statement/call node, chunk expression)
             src = ret
+            if isinstance(src, ast.Call) and isinstance(src.func, ast.Name) and src.func.id in ('bytes', 'bytearray') \
+                    and len(src.args) == 1 and not src.keywords and isinstance(src.args[0], ast.Name):
+                src = src.args[0]           # bytes(data): the same length
             if isinstance(src, ast.Name):
                 defs = [n for n in ast.walk(fn) if isinstance(n, ast.Assign)
                         and isinstance(n.targets[0], ast.Name) and n.targets[0].id == src.id]
@@ -233,6 +354,12 @@ def r20_2(rep: Report, cls: ast.ClassDef) -> None:
                 if loop is None:
                     return False, 'write outside the chunk loop'
                 t = loop.test
+                if isinstance(t, ast.Compare) and len(t.ops) == 1 and isinstance(t.ops[0], ast.Lt) \
+                        and isinstance(t.left, ast.Name) and isinstance(t.comparators[0], ast.Name):
+                    ok_c, why_c = cursor_loop_ok(loop, w, chunk_e, t.left.id, t.comparators[0].id, facts)
+                    if not ok_c:
+                        return False, why_c
+                    continue
                 if isinstance(t, ast.Compare) and len(t.ops) == 1 and isinstance(t.ops[0], ast.Gt) \
                         and isinstance(t.comparators[0], ast.Constant) and t.comparators[0].value == 0:
                     t = t.left
@@ -384,7 +511,9 @@ def r20_2(rep: Report, cls: ast.ClassDef) -> None:
                 else:
                     why = f'slice bound `{v.slice.upper.id}` is not clamped to size - pos'
             elif isinstance(v, ast.Name) or (isinstance(v, ast.Call) and isinstance(v.func, ast.Attribute)
-                                             and v.func.attr in ('getvalue', 'join')):
+                                             and v.func.attr in ('getvalue', 'join')) or \
+                    (isinstance(v, ast.Call) and isinstance(v.func, ast.Name) and v.func.id in ('bytes', 'bytearray')
+                     and len(v.args) == 1 and isinstance(v.args[0], ast.Name)):
                 ok, why = assembled_ok(v, facts)
                 if not ok and 'not a single buf.getvalue' in why:
                     # e.g. rv = self.reader.read()
@@ -413,6 +542,10 @@ def r20_3(rep: Report, cls: ast.ClassDef) -> None:
     class ZD(ZoneDomain):
         def assume(self, test, s, truth):
             t = norm(test)
+            # limit = self.size ; if limit is None: the local is the size while neither is reassigned
+            if isinstance(test, ast.Compare) and isinstance(test.left, ast.Name) \
+                    and f'sizecopy:{test.left.id}' in s.facts:
+                t = t.replace(test.left.id, 'self.size', 1)
             if t == 'self.size is None':
                 s.facts.add('sizenone' if truth else 'sizeknown')
                 return s
@@ -424,7 +557,14 @@ def r20_3(rep: Report, cls: ast.ClassDef) -> None:
         def transfer(self, st, s):
             for t in (st.targets if isinstance(st, ast.Assign) else
                       [st.target] if isinstance(st, (ast.AugAssign, ast.AnnAssign)) else []):
+                if isinstance(t, ast.Name):
+                    s.facts.discard(f'sizecopy:{t.id}')
+                    if isinstance(st, (ast.Assign, ast.AnnAssign)) and st.value is not None \
+                            and dotted(st.value) == 'self.size':
+                        s.facts.add(f'sizecopy:{t.id}')
                 if dotted(t) == 'self.size':
+                    for f_ in [f_ for f_ in s.facts if f_.startswith('sizecopy:')]:
+                        s.facts.discard(f_)
                     s.facts.discard('sizenone')
                     s.facts.add('sizeknown')
                     s = super().transfer(st, s)
@@ -513,16 +653,25 @@ def r20_6(rep: Report, cls: ast.ClassDef) -> None:
         raise AnalysisError('BufferedReader: no `self.size is None` test found')
 
 
+def _fills(fn: ast.AST) -> list[ast.Assign]:
+    return [x for x in ast.walk(fn) if isinstance(x, ast.Assign) and isinstance(x.targets[0], ast.Subscript)
+            and norm(x.targets[0].value) == 'self.buffers']
+
+
 def r20_4(rep: Report, cls: ast.ClassDef) -> None:
     rid = 'R20.4'
-    fn = need(find_func(cls, 'cache'), f'{BR}::BufferedReader.cache')
-    construct = f'{BR}::BufferedReader.cache'
-    found = 0
-    for n in ast.walk(fn):
-        body = getattr(n, 'body', None)
-        if not isinstance(body, list):
-            continue
-        for blk in (body, getattr(n, 'orelse', []) or []):
+    need(find_func(cls, 'cache'), f'{BR}::BufferedReader.cache')
+    from ..pathcond import PathCond, entails as pc_entails, f_or, parse as pc_parse, show as pc_show
+    fill_methods = [m for m in methods(rep, cls) if _fills(m) and any(
+        isinstance(c, ast.Call) and call_name(c) == 'self.reader.read' for c in ast.walk(m))]
+    if not fill_methods:
+        raise AnalysisError('BufferedReader: no method stores a bucket into self.buffers')
+    for fn in fill_methods:
+        construct = f'{BR}::BufferedReader.{fn.name}'
+        found = 0
+        blocks = [b_ for n in ast.walk(fn) for fld in ('body', 'orelse', 'finalbody')
+                  for b_ in [getattr(n, fld, None)] if isinstance(b_, list) and b_ and isinstance(b_[0], ast.stmt)]
+        for blk in blocks:
             dels = [s for s in blk if isinstance(s, ast.Delete)
                     and any('self.buffers' in norm(t) for t in s.targets)]
             decs = [s for s in blk if isinstance(s, ast.AugAssign) and isinstance(s.op, ast.Sub)
@@ -547,46 +696,71 @@ def r20_4(rep: Report, cls: ast.ClassDef) -> None:
                 else:
                     rep.fail(rid, construct, norm(i),
                              'insertion without incrementing num_buffers', i)
-    if found < 2:
-        raise AnalysisError('cache(): eviction/insertion idiom not recognised')
-    # the bucket read is exactly one buffersize at bucket + offset -> R20.1 covers the seek;
-    # the read length:
-    for n in ast.walk(fn):
-        if isinstance(n, ast.Call) and call_name(n) == 'self.reader.read':
-            key = norm(n)
-            if n.args and norm(n.args[0]) == 'self.buffersize':
-                rep.ok(rid, construct, key)
-            else:
-                rep.fail(rid, construct, key, 'bucket fill does not read exactly buffersize', n)
-    # a bucket that is present is not read again: every path to the fill implies `bucket not in buffers`
-    from ..pathcond import PathCond, entails as pc_entails, parse as pc_parse, show as pc_show
-    bname = fn.args.args[1].arg
-    goal = pc_parse(ast.parse(f'not ({bname} in self.buffers)', mode='eval').body)
-    verdicts = []
+        if found < 2:
+            raise AnalysisError(f'{fn.name}(): eviction/insertion idiom not recognised')
+        # the bucket read is exactly one buffersize at bucket + offset -> R20.1 covers the seek;
+        # the read length:
+        for n in ast.walk(fn):
+            if isinstance(n, ast.Call) and call_name(n) == 'self.reader.read' and any(
+                    any(x is n for x in ast.walk(a_)) for a_ in ast.walk(fn)
+                    if isinstance(a_, ast.Assign) and isinstance(a_.value, ast.Call) and call_name(a_.value) == 'Buffer'):
+                key = norm(n)
+                if n.args and norm(n.args[0]) == 'self.buffersize':
+                    rep.ok(rid, construct, key)
+                else:
+                    rep.fail(rid, construct, key, 'bucket fill does not read exactly buffersize', n)
+        # a bucket that is present is not read again: every path to the fill implies `bucket not in
+        # buffers` (written as a membership test, or as `self.buffers.get(bucket) is None`)
+        keys = {norm(f_.targets[0].slice) for f_ in _fills(fn)}
+        if len(keys) != 1:
+            raise AnalysisError(f'{fn.name}(): buckets stored under several keys {sorted(keys)}')
+        bname = next(iter(keys))
+        goals = [pc_parse(ast.parse(f'not ({bname} in self.buffers)', mode='eval').body)]
+        for v in {x.id for x in ast.walk(fn) if isinstance(x, ast.Name)}:
+            defs = [a_.value for a_ in ast.walk(fn) if isinstance(a_, (ast.Assign, ast.AnnAssign))
+                    and getattr(a_, 'value', None) is not None
+                    and any(isinstance(t, ast.Name) and t.id == v
+                            for t in (a_.targets if isinstance(a_, ast.Assign) else [a_.target]))]
+            lookups = [d for d in defs if isinstance(d, ast.Call) and call_name(d) == 'self.buffers.get'
+                       and len(d.args) == 1 and norm(d.args[0]) == bname]
+            # the name holds the cached entry (None when absent) or, later, the entry just stored
+            others = [d for d in defs if d not in lookups]
+            if lookups and all(isinstance(d, ast.Call) and call_name(d) == 'Buffer' for d in others):
+                goals.append(('atom', f'{v} is None'))
+        goal = f_or(*goals) if len(goals) > 1 else goals[0]
+        verdicts = []
 
-    def on_fill(st, states):
-        if isinstance(st, (ast.If, ast.While, ast.For, ast.With, ast.Try)):
-            return
-        fills = any(isinstance(c, ast.Call) and call_name(c) == 'self.reader.read' for c in ast.walk(st)) or (
-            isinstance(st, ast.Assign) and isinstance(st.targets[0], ast.Subscript)
-            and norm(st.targets[0].value) == 'self.buffers')
-        if fills:
-            for x in states:
-                verdicts.append((pc_entails(x[0], goal) is True, pc_show(x[0]), st))
-    Flow(Disjunctive(PathCond(), cap=256), on_stmt=on_fill).run(fn, [PathCond.initial()])
-    if not verdicts:
-        raise AnalysisError('cache(): no bucket fill found')
-    badv = [v for v in verdicts if not v[0]]
-    if not badv:
-        rep.ok(rid, construct, 'cached bucket is reused', f'every path to the fill implies `{bname} not in self.buffers`')
-    else:
-        rep.fail(rid, construct, 'cached bucket is reused',
-                 f'the bucket is read and stored on a path that does not imply `{bname} not in self.buffers` '
-                 f'(path condition: {badv[0][1][:120]}): a cached bucket is fetched again', badv[0][2])
+        def on_fill(st, states, _v=verdicts, _goal=goal):
+            if isinstance(st, (ast.If, ast.While, ast.For, ast.With, ast.Try)):
+                return
+            reads = any(isinstance(c, ast.Call) and call_name(c) == 'self.reader.read' for c in ast.walk(st))
+            stores = isinstance(st, ast.Assign) and isinstance(st.targets[0], ast.Subscript) \
+                and norm(st.targets[0].value) == 'self.buffers'
+            # a store that follows the read in the same block is reached only through it
+            if stores and any(any(x is st for x in blk[i_ + 1:]) for blk in _blocks for i_, r_ in enumerate(blk)
+                              if any(isinstance(c, ast.Call) and call_name(c) == 'self.reader.read' for c in ast.walk(r_))
+                              and not isinstance(r_, (ast.If, ast.While, ast.For, ast.With, ast.Try))):
+                return
+            if reads or stores:
+                for x in states:
+                    _v.append((pc_entails(x[0], _goal) is True, pc_show(x[0]), st))
+        _blocks = blocks
+        Flow(Disjunctive(PathCond(), cap=256), on_stmt=on_fill).run(fn, [PathCond.initial()])
+        if not verdicts:
+            raise AnalysisError(f'{fn.name}(): no bucket fill found')
+        badv = [v for v in verdicts if not v[0]]
+        if not badv:
+            rep.ok(rid, construct, 'cached bucket is reused', f'every path to the fill implies `{bname} not in self.buffers`')
+        else:
+            rep.fail(rid, construct, 'cached bucket is reused',
+                     f'the bucket is read and stored on a path that does not imply `{bname} not in self.buffers` '
+                     f'(path condition: {badv[0][1][:120]}): a cached bucket is fetched again', badv[0][2])
     # bucket keys handed to cache() are multiples of buffersize
     for m in methods(rep, cls):
         calls = [c for c in ast.walk(m) if isinstance(c, ast.Call) and call_name(c) == 'self.cache']
-        if not calls:
+        params_m = {a_.arg for a_ in m.args.args}
+        own_fills = [f_ for f_ in _fills(m) if norm(f_.targets[0].slice) not in params_m] if m in fill_methods else []
+        if not calls and not own_fills:
             continue
         mconstruct = f'{BR}::BufferedReader.{m.name}'
 
@@ -657,6 +831,14 @@ def r20_4(rep: Report, cls: ast.ClassDef) -> None:
         def on_stmt(st, s, _m=m, _c=mconstruct):
             if isinstance(st, (ast.If, ast.While, ast.For, ast.With, ast.Try)):
                 return
+            if any(st is f_ for f_ in own_fills):
+                a = st.targets[0].slice
+                if aligned(a, s):
+                    rep.ok(rid, _c, f'buffers[{norm(a)}]')
+                else:
+                    rep.fail(rid, _c, f'buffers[{norm(a)}]',
+                             'bucket key is not provably a multiple of buffersize '
+                             '(overlapping or misaligned cache entries)', st)
             for c in ast.walk(st):
                 if isinstance(c, ast.Call) and call_name(c) == 'self.cache':
                     a = c.args[0]
@@ -689,63 +871,74 @@ def r20_7(rep: Report, cls: ast.ClassDef) -> None:
     cache hit, a seek of the window or another reader of the same file can falsify."""
     from ..pathcond import PathCond, atoms_of, entails as pc_entails, f_not, show as pc_show, sym_values
     rid = 'R20.7'
-    fn = need(find_func(cls, 'cache'), f'{BR}::BufferedReader.cache')
-    construct = f'{BR}::BufferedReader.cache'
-    bname = fn.args.args[1].arg
-    want = {bname: 1, 'self.offset': 1}
+    need(find_func(cls, 'cache'), f'{BR}::BufferedReader.cache')
+    fill_methods = [m for m in methods(rep, cls) if _fills(m) and any(
+        isinstance(c, ast.Call) and call_name(c) == 'self.reader.read' for c in ast.walk(m))]
+    if not fill_methods:
+        raise AnalysisError('BufferedReader: no method fills a bucket from the underlying reader')
+    for fn in fill_methods:
+        construct = f'{BR}::BufferedReader.{fn.name}'
+        keys = {norm(f_.targets[0].slice) for f_ in _fills(fn)}
+        if len(keys) != 1:
+            raise AnalysisError(f'{fn.name}(): buckets stored under several keys {sorted(keys)}')
+        bname = next(iter(keys))
+        want_e = ast.parse(f'{bname} + self.offset', mode='eval').body
 
-    sym_upd, resolve = sym_values(subst_calls=False)
+        def is_want(state, e: ast.AST, _w=want_e) -> bool:
+            a_ = lin(resolve(state, e, calls=False), opaque=True)
+            return a_ is not None and a_ == lin(resolve(state, _w, calls=False), opaque=True)
 
-    def upd(st, facts):
-        facts = set(sym_upd(st, frozenset(facts)))
-        for c in ast.walk(st) if not isinstance(st, (ast.If, ast.While, ast.For, ast.With, ast.Try)) else []:
-            if isinstance(c, ast.Call) and call_name(c) == 'self.reader.seek' and c.args:
-                whence = c.args[1] if len(c.args) > 1 else next((k.value for k in c.keywords if k.arg == 'whence'), None)
-                if lin(resolve((None, None, frozenset(facts)), c.args[0], calls=False)) == want and (whence is None or norm(whence).endswith('SEEK_SET')
-                                                                  or norm(whence) == '0'):
-                    facts.add('at-bucket')
-                else:
+        sym_upd, resolve = sym_values(subst_calls=False)
+
+        def upd(st, facts):
+            facts = set(sym_upd(st, frozenset(facts)))
+            for c in ast.walk(st) if not isinstance(st, (ast.If, ast.While, ast.For, ast.With, ast.Try)) else []:
+                if isinstance(c, ast.Call) and call_name(c) == 'self.reader.seek' and c.args:
+                    whence = c.args[1] if len(c.args) > 1 else next((k.value for k in c.keywords if k.arg == 'whence'), None)
+                    if is_want((None, None, frozenset(facts)), c.args[0]) and (whence is None or norm(whence).endswith('SEEK_SET')
+                                                                      or norm(whence) == '0'):
+                        facts.add('at-bucket')
+                    else:
+                        facts.discard('at-bucket')
+                elif isinstance(c, ast.Call) and (call_name(c) or '').startswith('self.reader.') \
+                        and call_name(c) not in ('self.reader.tell',):
                     facts.discard('at-bucket')
-            elif isinstance(c, ast.Call) and (call_name(c) or '').startswith('self.reader.') \
-                    and call_name(c) not in ('self.reader.tell',):
-                facts.discard('at-bucket')
-        return frozenset(facts)
-    verdicts = []
+            return frozenset(facts)
+        verdicts = []
 
-    def on_stmt(st, states):
-        if isinstance(st, (ast.If, ast.While, ast.For, ast.With, ast.Try)):
-            return
-        if any(isinstance(c, ast.Call) and call_name(c) == 'self.reader.read' for c in ast.walk(st)):
-            for x in states:
-                goals = []
-                for t in atoms_of(x[0]):
-                    try:
-                        e = ast.parse(t, mode='eval').body
-                    except SyntaxError:
-                        continue
-                    if not (isinstance(e, ast.Compare) and len(e.ops) == 1 and isinstance(e.ops[0], (ast.Eq, ast.NotEq))):
-                        continue
-                    sides = [e.left, e.comparators[0]]
-                    tells = [i for i, sd in enumerate(sides) if isinstance(sd, ast.Call)
-                             and call_name(sd) == 'self.reader.tell']
-                    if len(tells) != 1:
-                        continue
-                    other = resolve(x, sides[1 - tells[0]], calls=False)
-                    if lin(other) == want:
-                        goals.append(('atom', t) if isinstance(e.ops[0], ast.Eq) else f_not(('atom', t)))
-                ok_ = 'at-bucket' in x[2] or any(pc_entails(x[0], g) is True for g in goals)
-                verdicts.append((ok_, pc_show(x[0]), st))
-    Flow(Disjunctive(PathCond(upd=upd), cap=256), on_stmt=on_stmt).run(fn, [PathCond.initial()])
-    if not verdicts:
-        raise AnalysisError('cache(): no bucket fill found')
-    badv = [v for v in verdicts if not v[0]]
-    if not badv:
-        rep.ok(rid, construct, 'fill reads at bucket + offset', f'{len(verdicts)} path(s) to the fill')
-    else:
-        rep.fail(rid, construct, 'fill reads at bucket + offset',
-                 f'the bucket is filled on a path that neither seeks the underlying reader to `{bname} + self.offset` '
-                 f'nor implies it already is there (path condition: {badv[0][1][:140]}): the bytes cached under this '
-                 'key can come from another part of the file', badv[0][2])
+        def on_stmt(st, states):
+            if isinstance(st, (ast.If, ast.While, ast.For, ast.With, ast.Try)):
+                return
+            if any(isinstance(c, ast.Call) and call_name(c) == 'self.reader.read' for c in ast.walk(st)):
+                for x in states:
+                    goals = []
+                    for t in atoms_of(x[0]):
+                        try:
+                            e = ast.parse(t, mode='eval').body
+                        except SyntaxError:
+                            continue
+                        if not (isinstance(e, ast.Compare) and len(e.ops) == 1 and isinstance(e.ops[0], (ast.Eq, ast.NotEq))):
+                            continue
+                        sides = [e.left, e.comparators[0]]
+                        tells = [i for i, sd in enumerate(sides) if isinstance(sd, ast.Call)
+                                 and call_name(sd) == 'self.reader.tell']
+                        if len(tells) != 1:
+                            continue
+                        if is_want(x, sides[1 - tells[0]]):
+                            goals.append(('atom', t) if isinstance(e.ops[0], ast.Eq) else f_not(('atom', t)))
+                    ok_ = 'at-bucket' in x[2] or any(pc_entails(x[0], g) is True for g in goals)
+                    verdicts.append((ok_, pc_show(x[0]), st))
+        Flow(Disjunctive(PathCond(upd=upd), cap=256), on_stmt=on_stmt).run(fn, [PathCond.initial()])
+        if not verdicts:
+            raise AnalysisError(f'{fn.name}(): no bucket fill found')
+        badv = [v for v in verdicts if not v[0]]
+        if not badv:
+            rep.ok(rid, construct, 'fill reads at bucket + offset', f'{len(verdicts)} path(s) to the fill')
+        else:
+            rep.fail(rid, construct, 'fill reads at bucket + offset',
+                     f'the bucket is filled on a path that neither seeks the underlying reader to `{bname} + self.offset` '
+                     f'nor implies it already is there (path condition: {badv[0][1][:140]}): the bytes cached under this '
+                     'key can come from another part of the file', badv[0][2])
 
 
 def r20_5(rep: Report) -> None:
